@@ -17,6 +17,12 @@ int main() {
       if (o == "addv") { c->add_vertex(); ++nv; return "addv"; }
       if (o == "adde") { int a = (int)L(t[1]), b = (int)L(t[2]); if (a != b && c->contains_vertex(VH(a)) && c->contains_vertex(VH(b)) && !c->contains_edge(VH(a), VH(b))) c->add_edge(VH(a), VH(b)); return "adde"; }
       if (o == "adds") { c->add_simplex(tos(v)); if (!v.empty()) nv = std::max(nv, v.back() + 1); return "adds"; }
+      if (o == "copy") {   // the complex goes on as a copy of itself: copy constructor (0) or assignment over a non-empty complex with a blocker (1)
+        if (L(t[1]) == 0) { std::unique_ptr<Complex> d(new Complex(*c)); c = std::move(d); }
+        else { std::unique_ptr<Complex> d(new Complex()); for (int i = 0; i < 4; ++i) d->add_vertex();
+               for (int i = 0; i < 4; ++i) for (int j = i + 1; j < 4; ++j) d->add_edge(VH(i), VH(j));
+               d->add_blocker(tos({0, 1, 2})); *d = *c; c = std::move(d); }
+        return "copy"; }
       if (o == "rmstar") { c->remove_star(tos(v)); return "rmstar"; }
       if (o == "link") { return std::string("link ") + (c->link_condition(VH((int)L(t[1])), VH((int)L(t[2]))) ? "1" : "0"); }
       if (o == "contract") { int a = (int)L(t[1]), b = (int)L(t[2]); if (a != b && c->contains_vertex(VH(a)) && c->contains_vertex(VH(b)) && c->contains_edge(VH(a), VH(b)) && c->link_condition(VH(a), VH(b))) { c->contract_edge(VH(a), VH(b)); return "contract 1"; } return "contract 0"; }
